@@ -10,7 +10,7 @@ import copy
 import json
 import random
 
-from . import common, storage_driver as sd, storage_gen as sg, tlc
+from . import common, storage_driver as sd, storage_gen as sg, suite_traces, tlc
 
 MC_ACTIONS = ["CreateStudy", "DeleteStudy", "SetStudyAttr", "CreateTrial", "SetParam", "SetState", "SetIV",
               "SetTrialAttr"]
@@ -97,6 +97,15 @@ def classify_and_report(ctx, traces, v):
         if f is not None:
             ctx.known_finding(f, f"config={t['config']}")
             continue
+        if t["config"].startswith("suite:"):
+            tests = sorted({e.get("test", "?") for e in t["ev"][:i]})
+            text = (f"recorded run of the repository's tests {tests[-3:]} on {t['config'][6:]}: call #{i} "
+                    f"{json.dumps(strip(ev)) if ev else '?'} is not a step of the Storage contract")
+            ctx.violation(text[:1500], {"suite": {"tests": sorted({e.get("nodeid", "") for e in t["ev"]} - {""}), "key": t["key"]},
+                                        "failing_event": i, "recorded": ev})
+            if len(ctx.violations) >= 8:
+                break
+            continue
         text = (f"backend {t['config']} history {t['hid']}: event #{i} {json.dumps(strip(ev)) if ev else '?'} is not a "
                 f"step of the Storage contract (reply, error class or read-back state differs)")
         ctx.violation(text[:1500], {"config": t["config"], "ops": [strip_op(e) for e in t["ev"]], "failing_event": i,
@@ -127,9 +136,18 @@ def run(ctx):
                 "writes after finish, unknown/deleted ids) + repeated overwrites of one key with values of every class "
                 "(finite, +-inf, NaN, denormal) + interleaved multi-study histories (ids differ from numbers; best trial of every "
                 "study after every completion) run on 9 backend configurations; every trace validated by TLC "
-                "against StorageTrace; distinct = distinct (config, call sequence) pairs")
+                "against StorageTrace; in addition every storage call the repository's OWN tests make (test_storages, test_cached_storage, "
+                "test_trial; thorough: study/journal/pruner/sampler tests too) is recorded per backend state and validated against "
+                "the same specification; distinct = distinct (config, call sequence) pairs")
     r = tlc.require_model("StorageMC", "StorageMC_q" if ctx.quick else "StorageMC_t", must_cover=MC_ACTIONS, timeout=3000)
     ctx.model(r, "StorageMC exhaustive")
+    # the repository's own tests, recorded while the generated histories run (judged below, with everything else)
+    import shutil
+    import tempfile
+
+    suite_out = tempfile.mkdtemp(prefix="c01-suite-", dir=tlc.scratch())
+    suite_proc = suite_traces.start(suite_traces.QUICK_FILES if ctx.quick else suite_traces.THOROUGH_FILES, suite_out,
+                                    workers=6 if ctx.quick else 12)
     n_fast, n_slow = (150, 36) if ctx.quick else (1500, 360)
     n_tlc_fast, n_tlc_slow = (60, 12) if ctx.quick else (400, 100)
     hs_tlc = histories_from_tlc(ctx, n_tlc_fast, 14)
@@ -144,6 +162,16 @@ def run(ctx):
             plan.append((c, hs_rand + hs_tlc + hs_ow + hs_ms))
         plan.append((c, [{"hid": "K6-nan-template-value", "ops": K6_OPS}]))
     traces = execute(plan)
+    rc, tail = suite_traces.finish(suite_proc)
+    straces, cuts = suite_traces.build(suite_traces.load(suite_out))
+    shutil.rmtree(suite_out, ignore_errors=True)
+    ctx.notes["suite_traces"] = {"pytest_exit": rc, "pytest_summary": tail[:200], "traces": len(straces),
+                                 "events": sum(len(t["ev"]) for t in straces), "cut_reasons": cuts}
+    print(f"[{ctx.pid}] recorded test-suite run: {tail[:120]}; {len(straces)} backend traces, "
+          f"{sum(len(t['ev']) for t in straces)} calls, cuts {cuts}", flush=True)
+    if len(straces) < 50:
+        raise tlc.MachineryError(f"the recorded test run produced only {len(straces)} traces: {tail[:300]}")
+    traces += straces
     for i, t in enumerate(traces):
         t["tid"] = i + 1
         ctx.count_case([t["config"]] + [strip_op(e) for e in t["ev"]], nontrivial=len(t["ev"]) > 3)
@@ -189,6 +217,21 @@ def run(ctx):
 
 
 def replay(ctx, data):
+    if "suite" in data:
+        import shutil
+        import tempfile
+
+        out = tempfile.mkdtemp(prefix="c01-suite-", dir=tlc.scratch())
+        proc = suite_traces.start(data["suite"]["tests"], out, workers=1)
+        suite_traces.finish(proc)
+        tr, _ = suite_traces.build(suite_traces.load(out))
+        shutil.rmtree(out, ignore_errors=True)
+        for i, t in enumerate(tr):
+            t["tid"] = i + 1
+        v = tlc.validate("StorageTrace", "StorageTrace", [{"tid": t["tid"], "ev": t["ev"]} for t in tr])
+        ctx.validated(v, "replay of recorded tests")
+        classify_and_report(ctx, tr, v)
+        return
     tr = sd.run_histories(data["config"], [{"hid": "replay", "ops": data["ops"]}])
     for i, t in enumerate(tr):
         t["tid"] = i + 1
